@@ -385,3 +385,17 @@ package metrics
 //@   site store metricsMEntryWalState.wal #1:
 //@     assert [the-shared-metadata-wal-is-dropped-only-at-a-forced-rotation] forceRotate
 //@ end
+
+// C08 (a metrics query over a time range sees every sample in it): the time
+// range of an open metrics segment is what the query path tests for overlap
+// before it looks into the segment, so after a sample is recorded the range
+// contains its timestamp on BOTH sides (the first sample of a segment moves
+// both bounds: lowTS starts at MaxUint32, highTS at 0), and never shrinks.
+//@ func (*MetricsSegment).updateTimeRange
+//@   props C08
+//@   requires ms != nil
+//@   modifies ms.lowTS, ms.highTS
+//@   ensures [the-range-contains-the-sample] ms.lowTS <= ts && ts <= ms.highTS
+//@   ensures [the-range-never-shrinks] ms.lowTS <= old(ms.lowTS) && ms.highTS >= old(ms.highTS)
+//@   ensures [the-range-grows-only-as-far-as-the-sample] (ms.lowTS == old(ms.lowTS) || ms.lowTS == ts) && (ms.highTS == old(ms.highTS) || ms.highTS == ts)
+//@ end
